@@ -24,9 +24,10 @@ Murs  == {"none", "REJT", "RETN", "MUR12345", "XREJTY"}
 Flags == {"none", "REJT", "RETN", "COV", "STP"}
 
 CovSeqs == {"none", "50+59", "50", "59"}
-VARIABLES mt, words, mur, flag, covseq
+\* lead: field 72 opens with a line that carries no code word, so every code word stands on a later line
+VARIABLES mt, words, mur, flag, covseq, lead
 
-vars == <<mt, words, mur, flag, covseq>>
+vars == <<mt, words, mur, flag, covseq, lead>>
 
 Init ==
   /\ mt \in Types72 \cup {OtherType, Type79}
@@ -34,6 +35,8 @@ Init ==
   /\ mur \in Murs /\ flag \in Flags
   \* the cover sequence (MT202 sequence B): absent, ordering and beneficiary customer, or either one alone --
   \* any field of it makes the sequence present
+  /\ lead \in BOOLEAN
+  /\ lead => (words # {} /\ mt \in Types72 \cup {OtherType})   \* (MT199 classifies by the start of its first line only)
   /\ covseq \in CovSeqs
   /\ covseq # "none" => mt = "202"
   /\ (flag \in {"REJT", "RETN", "COV"}) => mt \in {"202", "205"}
@@ -67,7 +70,7 @@ LookAlikesDoNotClassify ==
 SameAcrossTypes == \A w \in SUBSET {} : TRUE   \* by construction: RefReject/RefReturn do not mention mt beyond Supports
 Precedence == RefReject => Method(RefReject, RefReturn, RefCover, FALSE) \in {"reject", "normal"}
 
-Case == [mt |-> mt, words |-> words, mur |-> mur, flag |-> flag, covseq |-> covseq,
+Case == [mt |-> mt, words |-> words, mur |-> mur, flag |-> flag, covseq |-> covseq, lead |-> lead,
          reject |-> RefReject, return |-> RefReturn, cover |-> RefCover]
 Emit == EmitCases => PrintT(ToJson(Case))
 =============================================================================
